@@ -846,6 +846,14 @@ class Crystal(object):
             if trans: break
         # end the recursion here:
         if not trans: return
+        # t generates a cyclic group of translations; use the multiple (mod lattice) whose smallest numerator
+        # divides M and all the other numerators, so that the change of basis below is integer
+        for k in range(1, M):
+            Tk = (k*T) % M
+            if not Tk.any(): continue
+            m = min([i for (i, v) in enumerate(Tk) if v != 0], key=lambda n: Tk[n])
+            if M % Tk[m] == 0 and not (Tk % Tk[m]).any(): break
+        T, t = Tk, Tk/M
         # reduce that lattice and basis
         # 1. determine what the new lattice needs to look like.
         # m = index of smallest non-zero value in T:
